@@ -50,3 +50,37 @@ package nfpm
 //@   ensures [C07] mtime-kept: implies(!old(info.MTime.IsZero()), info.MTime == old(info.MTime) && flag("envRead") == old(flag("envRead")))
 //@   ensures [C11] same-object: result == info
 //@   modifies [C11 C12] &info.Platform, &info.Description, &info.Arch, &info.Version, &info.Umask, &info.MTime, &info.Prerelease, &info.VersionMetadata, flag("envRead")
+//
+//@ spec func contentsNonNil(cs files.Contents) bool {
+//@     return forall(0, len(cs), func(i int) bool { return cs[i] != nil })
+//@ }
+//
+//@ func (c *Config) Get(format string) (info *Info, err error)
+//@   requires c != nil
+//@   requires contentsNonNil(c.Info.Contents)
+//@   requires implies(mapHas(c.Overrides, format) && c.Overrides[format] != nil, contentsNonNil(c.Overrides[format].Contents))
+//@   ensures [C11 C13] fresh-info: implies(err == nil, info != nil && fresh(info))
+//@   ensures [C13] no-override-is-base: implies(err == nil && !mapHas(old(c.Overrides), format), deepEq(*info, mergoOverride(Info{}, old(c.Info))))
+//@   ensures [C13] identity-is-base: implies(err == nil, info.Name == old(c.Info.Name) && info.Arch == old(c.Info.Arch) && info.Version == old(c.Info.Version) && info.Epoch == old(c.Info.Epoch) && info.Release == old(c.Info.Release) && info.Prerelease == old(c.Info.Prerelease) && info.Maintainer == old(c.Info.Maintainer) && info.Description == old(c.Info.Description))
+//@   ensures [C13] override-of-this-format: implies(err == nil && mapHas(old(c.Overrides), format) && old(c.Overrides[format]) != nil,
+//@       deepEq(info.Depends, mergoOverride(old(c.Info.Depends), old(c.Overrides[format].Depends))) &&
+//@       deepEq(info.Replaces, mergoOverride(old(c.Info.Replaces), old(c.Overrides[format].Replaces))) &&
+//@       deepEq(info.Provides, mergoOverride(old(c.Info.Provides), old(c.Overrides[format].Provides))) &&
+//@       deepEq(info.Recommends, mergoOverride(old(c.Info.Recommends), old(c.Overrides[format].Recommends))) &&
+//@       deepEq(info.Suggests, mergoOverride(old(c.Info.Suggests), old(c.Overrides[format].Suggests))) &&
+//@       deepEq(info.Conflicts, mergoOverride(old(c.Info.Conflicts), old(c.Overrides[format].Conflicts))) &&
+//@       info.Umask == mergoOverride(old(c.Info.Umask), old(c.Overrides[format].Umask)) &&
+//@       deepEq(info.Scripts, mergoOverride(old(c.Info.Scripts), old(c.Overrides[format].Scripts))))
+//@   ensures [C13] override-nested-blocks: implies(err == nil && mapHas(old(c.Overrides), format) && old(c.Overrides[format]) != nil,
+//@       deepEq(info.RPM, mergoOverride(mergoOverride(RPM{}, old(c.Info.RPM)), old(c.Overrides[format].RPM))) &&
+//@       deepEq(info.Deb, mergoOverride(mergoOverride(Deb{}, old(c.Info.Deb)), old(c.Overrides[format].Deb))) &&
+//@       deepEq(info.APK, mergoOverride(mergoOverride(APK{}, old(c.Info.APK)), old(c.Overrides[format].APK))) &&
+//@       deepEq(info.ArchLinux, mergoOverride(mergoOverride(ArchLinux{}, old(c.Info.ArchLinux)), old(c.Overrides[format].ArchLinux))) &&
+//@       deepEq(info.IPK, mergoOverride(mergoOverride(IPK{}, old(c.Info.IPK)), old(c.Overrides[format].IPK))))
+//@   ensures [C13 C05] only-own-contents: implies(err == nil && mapHas(old(c.Overrides), format), forall(0, len(info.Contents), func(i int) bool { return info.Contents[i] != nil && (info.Contents[i].Packager == format || info.Contents[i].Packager == "") }))
+//@   ensures [C11 C13] config-unchanged: deepEq(c.Info, old(c.Info))
+//@   modifies [C11 C12 C13]
+//@   loop 0 (contents []*files.Content, info *Info)
+//@     invariant [C11 C13] accumulator-fresh: contents == nil || fresh(contents)
+//@     invariant [C13] own-so-far: forall(0, len(contents), func(i int) bool { return contents[i] != nil && (contents[i].Packager == format || contents[i].Packager == "") })
+//@     invariant [C13] elements-non-nil: forall(0, len(info.Contents), func(i int) bool { return info.Contents[i] != nil })
